@@ -53,7 +53,7 @@ func main() {
 		Plan: func(tier string, seed int64) []kit.Batch {
 			nb, n, nreq, nv := 16, 3, 300, 6
 			if tier == "thorough" {
-				nb, n, nreq, nv = 48, 24, 1000, 10
+				nb, n, nreq, nv = 48, 16, 1000, 8
 			}
 			var bs []kit.Batch
 			for i := 0; i < nb; i++ {
